@@ -61,7 +61,7 @@ const (
 	c17NodeA      = "node-a" // the node of the target pod
 	c17NodeB      = "node-b" // the other node
 	c17TTL        = 5 * time.Minute
-	c17MaxWriteK  = 6 // fault ops "fail the k-th write of this reconcile" exist for k = 1..c17MaxWriteK
+	c17MaxWriteK  = 5 // fault ops "fail the k-th write of this reconcile" exist for k = 1..c17MaxWriteK
 )
 
 var c17T0 = time.Date(2024, 1, 1, 0, 0, 0, 0, time.UTC)
@@ -92,19 +92,20 @@ const (
 var c17PNames = []string{"original", "deleted", "replaced-on-node-b", "replaced-on-node-a"}
 
 type c17Model struct {
-	rsv          int
-	rsvNode      string
-	rsvDelByCtl  bool // the last deletion of the reservation was a Delete call of the controller
-	pod          int
-	podGen       int
-	newPod       int    // 0 none, 1 bound pod exists and is not ready, 2 ready
-	newPodName   string // which pod the reservation was bound to (for the readiness event)
-	afterTTL     bool
-	faults       int
-	evicts       int // Evict calls issued so far (all of them; on fault-free histories all succeeded)
-	phase        sev1alpha1.PodMigrationJobPhase
-	reason       string
-	userRsvMade  bool
+	rsv         int
+	rsvNode     string
+	rsvDelByCtl bool // the last deletion of the reservation was a Delete call of the controller
+	pod         int
+	podGen      int
+	newPod      int    // 0 none, 1 bound pod exists and is not ready, 2 ready
+	newPodName  string // which pod the reservation was bound to (for the readiness event)
+	afterTTL    bool
+	faults      int
+	evicts      int // Evict calls issued so far (all of them; on fault-free histories all succeeded)
+	phase       sev1alpha1.PodMigrationJobPhase
+	reason      string
+	userRsvMade bool
+	otherMade   bool
 }
 
 func (m *c17Model) podNode() string {
@@ -132,7 +133,11 @@ type c17Cfg struct {
 	depth     int
 	replaceA  bool // also: pod replaced on its old node
 	legacy    bool // also: legacy Failed/Unschedulable reservation state
-	ops       []c17Op
+	// prefix is a fixed, legitimate event sequence executed before the exploration starts (a deeper starting point:
+	// the BFS then covers every continuation of that prefix up to depth)
+	prefix []string
+	ops    []c17Op
+	pfx    []int
 }
 
 const (
@@ -259,6 +264,7 @@ type c17EvictRec struct {
 	argUID   types.UID
 	argNode  string
 	failed   bool
+	uidDiff  bool // the pod handed to Evict is not the pod recorded in job.spec.podRef.uid (diagnostic only)
 	gateOK   bool
 	gateNote string
 }
@@ -452,6 +458,7 @@ func (s *c17Sys) Evict(ctx context.Context, job *sev1alpha1.PodMigrationJob, pod
 					pod.UID, pod.Spec.NodeName, c17RNames[s.m.rsv], s.m.rsvNode, c17PNames[s.m.pod], s.m.podNode())})
 		}
 	}
+	rec.uidDiff = job.Spec.PodRef != nil && job.Spec.PodRef.UID != "" && job.Spec.PodRef.UID != pod.UID
 	err := s.beforeWrite("evict", nil)
 	rec.failed = err != nil
 	s.recEvicts = append(s.recEvicts, rec)
@@ -504,6 +511,11 @@ func c17NewSys(cfg *c17Cfg, res *mc.Result) *c17Sys {
 		WithObjects(job, pod).WithInterceptorFuncs(s.funcs()).Build()
 	s.clk = fakeclock.NewFakeClock(c17T0.Add(time.Minute))
 	s.r = s.newReconciler()
+	for _, op := range cfg.pfx {
+		if en, _ := s.Apply(op, false); !en {
+			panic("c17 harness: prefix event not enabled: " + cfg.ops[op].name)
+		}
+	}
 	return s
 }
 
@@ -591,7 +603,9 @@ func (s *c17Sys) Apply(op int, check bool) (bool, []mc.Violation) {
 		if m.rsv != c17RPending {
 			return false, nil
 		}
-		s.mutateRsv(func(r *sev1alpha1.Reservation) { reservationutil.SetReservationUnschedulable(r, "0/2 nodes are available") })
+		s.mutateRsv(func(r *sev1alpha1.Reservation) {
+			reservationutil.SetReservationUnschedulable(r, "0/2 nodes are available")
+		})
 		m.rsv = c17RUnsched
 	case c17OpSchedOther, c17OpSchedSame:
 		if m.rsv != c17RPending && m.rsv != c17RUnsched {
@@ -628,6 +642,11 @@ func (s *c17Sys) Apply(op int, check bool) (bool, []mc.Violation) {
 		if m.rsv != c17RSched {
 			return false, nil
 		}
+		// a pod consumes at most one reservation: each of the two consumers appears at most once per history (only
+		// matters when the controller re-created the reservation after a consumed one was deleted)
+		if (o.code == c17OpBoundNew && m.newPod != 0) || (o.code == c17OpBoundOther && m.otherMade) {
+			return false, nil
+		}
 		owner := corev1.ObjectReference{Namespace: c17NS}
 		if o.code == c17OpBoundOther {
 			// another, already running pod of the workload consumed the reservation
@@ -635,7 +654,7 @@ func (s *c17Sys) Apply(op int, check bool) (bool, []mc.Violation) {
 			p := c17Pod(c17OtherPod, "c17-pod-other-uid", m.rsvNode)
 			p.Status.Conditions = []corev1.PodCondition{{Type: corev1.PodReady, Status: corev1.ConditionTrue}}
 			s.must(s.cl.Create(context.TODO(), p))
-			m.rsv = c17RBoundOther
+			m.rsv, m.otherMade = c17RBoundOther, true
 		} else {
 			if (m.pod == c17PReplacedA || m.pod == c17PReplacedB) && m.podNode() == m.rsvNode {
 				// StatefulSet-like: the same-name replacement of the target pod is the pod that consumes the reservation
@@ -737,6 +756,10 @@ func (s *c17Sys) reconcile(failAt int, check bool) (bool, []mc.Violation) {
 		res.Count("evict_calls", 1)
 		if e.failed {
 			res.Count("evict_calls_failed_by_fault", 1)
+		}
+		if e.uidDiff {
+			// not a clause of the statement (the job identifies its pod by name): reported, never a violation
+			res.Count("diag:evict_of_pod_whose_uid_differs_from_spec.podRef.uid", 1)
 		}
 		if s.cfg.mode != sev1alpha1.PodMigrationJobModeEvictionDirectly {
 			if e.gateOK {
@@ -911,8 +934,8 @@ func (s *c17Sys) Key() string {
 	s.r.assumedCache.lock.Lock()
 	cached := len(s.r.assumedCache.items)
 	s.r.assumedCache.lock.Unlock()
-	fmt.Fprintf(&sb, " model{rsv=%s@%s,delByCtl=%v,pod=%s,gen=%d,newpod=%d/%s,ttl=%v,faults=%d,evicts=%d,userRsv=%v,cache=%d}",
-		c17RNames[m.rsv], m.rsvNode, m.rsvDelByCtl, c17PNames[m.pod], m.podGen, m.newPod, m.newPodName, m.afterTTL, m.faults, ev, m.userRsvMade, cached)
+	fmt.Fprintf(&sb, " model{rsv=%s@%s,delByCtl=%v,pod=%s,gen=%d,newpod=%d/%s,ttl=%v,faults=%d,evicts=%d,userRsv=%v,other=%v,cache=%d}",
+		c17RNames[m.rsv], m.rsvNode, m.rsvDelByCtl, c17PNames[m.pod], m.podGen, m.newPod, m.newPodName, m.afterTTL, m.faults, ev, m.userRsvMade, m.otherMade, cached)
 	return sb.String()
 }
 
@@ -939,11 +962,25 @@ var c17Assumptions = []string{
 
 func c17Run(t *testing.T, env *mc.Env, cfg *c17Cfg) {
 	cfg.ops = c17BuildOps(cfg)
+	for _, n := range cfg.prefix {
+		found := false
+		for i, o := range cfg.ops {
+			if o.name == n {
+				cfg.pfx, found = append(cfg.pfx, i), true
+			}
+		}
+		if !found {
+			panic("c17 harness: unknown prefix event " + n)
+		}
+	}
 	res := mc.NewResult("C17", cfg.name, "bfs")
 	res.Rule = fmt.Sprintf("BFS over all sequences (<= depth %d) of the %d-event alphabet {reconcile; reconcile with the k-th API write (k<=%d, incl. the Evict call) failing, <= %d failures per history; reservation: unschedulable / scheduled on other node / scheduled on the pod's node / expired / deleted / bound to the job's new pod / bound to another pod; target pod deleted / replaced (new UID); bound pod ready; clock passes the job TTL; controller restart} on the real Reconciler.Reconcile + production reservation interpreter over a fake client holding real objects; mode %s; states deduplicated by persisted job + stored objects + reference model",
 		cfg.depth, len(cfg.ops), c17MaxWriteK, cfg.maxFaults, cfg.mode)
 	res.Assumptions = c17Assumptions
-	res.Bounds = map[string]any{"max_faults_per_history": cfg.maxFaults, "fault_positions_per_reconcile": c17MaxWriteK, "pod_replacements": 1, "nodes": 2}
+	if len(cfg.prefix) > 0 {
+		res.Rule += fmt.Sprintf("; every history starts with the fixed prefix %v (the fault-free road up to the issued eviction)", cfg.prefix)
+	}
+	res.Bounds = map[string]any{"prefix": cfg.prefix, "max_faults_per_history": cfg.maxFaults, "fault_positions_per_reconcile": c17MaxWriteK, "pod_replacements": 1, "nodes": 2}
 	b := &mc.BFS{Res: res, Env: env, New: func() mc.System { return c17NewSys(cfg, res) }, NumOps: len(cfg.ops),
 		OpName: func(i int) string { return cfg.ops[i].name }, MaxDepth: cfg.depth,
 		// no Go map is iterated on the reconcile path (object limiter maps are nil as in newTestReconciler), so one
@@ -979,6 +1016,11 @@ func TestVerifC17RF(t *testing.T) {
 
 func TestVerifC17Aux(t *testing.T) {
 	env := mc.LoadEnv()
+	// second half of the life cycle: everything that can follow an issued eviction (pod gone / replaced, reservation
+	// consumed / expired / deleted, TTL, restart, write failures), deep enough to continue after Succeeded
+	c17Run(t, env, &c17Cfg{name: "rf-after-eviction-hist", kind: "rf", mode: sev1alpha1.PodMigrationJobModeReservationFirst,
+		prefix:    []string{"reconcile", "rsv-scheduled-other-node", "reconcile"},
+		maxFaults: env.Pick(1, 2), depth: env.Pick(6, 8), replaceA: env.Thorough(), legacy: env.Thorough()})
 	c17Run(t, env, &c17Cfg{name: "direct-hist", kind: "direct", mode: sev1alpha1.PodMigrationJobModeEvictionDirectly,
 		maxFaults: env.Pick(1, 2), depth: env.Pick(6, 9), replaceA: env.Thorough()})
 	if env.Thorough() {
